@@ -39,7 +39,11 @@ class NumpySerializedList(collections.UserList):
         self._lst = [_serialize(x) for x in lst]
         self._addr = np.asarray([len(x) for x in self._lst], dtype=np.int64)
         self._addr = np.cumsum(self._addr)
-        self._lst = np.concatenate(self._lst)
+        if len(self._lst) == 0:
+            # np.concatenate refuses an empty list of arrays
+            self._lst = np.empty(0, dtype=np.uint8)
+        else:
+            self._lst = np.concatenate(self._lst)
 
     def __len__(self):
         return len(self._addr)
